@@ -92,6 +92,9 @@ def ev(code, env):
     return eval(code, {"__builtins__": __builtins__, **SPEC_ENV, **env})
 
 
+FN_OWNER: dict = {}
+
+
 def resolve(key):
     """-> (owner object, attribute name, raw attribute, function)"""
     c = api.CONTRACTS[key]
@@ -107,6 +110,7 @@ def resolve(key):
         fn = raw.__func__
     elif isinstance(raw, property):
         fn = raw.fget
+    FN_OWNER[fn] = owner
     return owner, parts[-1], raw, fn
 
 
@@ -115,6 +119,9 @@ def check_call(key, fn, args, kwargs, strict_pre=True):
     function's own exception when the contract allows it)."""
     c = api.CONTRACTS[key]
     sig = inspect.signature(fn)
+    pnames = list(sig.parameters)
+    if pnames and pnames[0] == "cls" and "cls" not in c.params and len(args) == len(c.params):
+        args = [FN_OWNER.get(fn)] + list(args)  # classmethod called through its function
     ba = sig.bind(*args, **kwargs)
     ba.apply_defaults()
     env = dict(ba.arguments)
